@@ -15,6 +15,7 @@
 #include <signal.h>
 #include <sys/wait.h>
 #include <errno.h>
+#include "cc_common.h"     /* enum cc_stat (the pool harnesses do not get it through the pool sources above) */
 
 /* ---------------------------------------------------------------- optional pool backing (C14)
  * With VF_POOL=static or VF_POOL=dynamic in the environment, blocks of the *configured* family are carved out of
@@ -62,6 +63,15 @@ static void vf_die(const char *why) {
     fflush(stdout);
     fprintf(stderr, "ERROR: Harness: %s\n", why);
     abort();
+}
+/* A constructor or derived-container builder that fails must "produce no object" (C08): its out parameter is
+ * primed with a sentinel and must still hold it after a failed call - a stored (dangling) pointer is reported. */
+#define VF_SENT ((void*)(uintptr_t)0x5E17AB1E)
+#define VF_OUT(var, call) ((var) = VF_SENT, vf_out_check((call), (void**)&(var)))
+static void vf_die(const char *why);
+static enum cc_stat vf_out_check(enum cc_stat st, void **var) {
+    if (st != CC_OK) { if (*var != VF_SENT) vf_die("out-parameter written by a failed constructor/builder"); *var = NULL; }
+    return st;
 }
 static void *vf_alloc(int tag, size_t n, int zero) {
     int grant = 1;
